@@ -143,6 +143,29 @@ def reference(hist, rich_root, reading):
 
 # ---- driver -----------------------------------------------------------------
 
+def leaf_histories(item):
+    """(shape, states) of every complete history a work item contains (pure enumeration)."""
+    dag, states, tails, alphabet = item
+    out = []
+
+    def rec(level, shape, sts):
+        if level == len(tails):
+            out.append((shape, sts))
+            return
+        for ps in tails[level]:
+            for st in alphabet:
+                rec(level + 1, shape + (ps,), sts + (st,))
+    rec(0, tuple(dag), tuple(states))
+    return out
+
+
+class CommitFailed(Exception):
+    def __init__(self, hist, exc):
+        Exception.__init__(self, repr(exc))
+        self.hist = hist
+        self.exc = exc
+
+
 def build(fmt, item):
     """Materialise a work item in one repository.  -> (store, url, hist, leaves)
     item = (prefix dag, prefix states, tail levels, alphabet); every tail level is a
@@ -159,8 +182,12 @@ def build(fmt, item):
 
     def commit(revid, parents, state):
         ts[0] += 1
-        mw.commit_spec(b, revid, list(parents), spec_of(state), timestamp=ts[0])
         hist.append((revid, tuple(parents), state))
+        try:
+            mw.commit_spec(b, revid, list(parents), spec_of(state), timestamp=ts[0])
+        except Exception as e:  # noqa
+            store.close()
+            raise CommitFailed(hist, e)
 
     path = []
     for i, (ps, st) in enumerate(zip(dag, states)):
@@ -272,7 +299,19 @@ def nontrivial(shape, sts):
 
 def check_item(fmt, item, acc, want_dump=False):
     from breezy.repository import Repository
-    store, b, hist, leaves = build(fmt, item)
+    for shape, sts in leaf_histories(item):     # accounting from the enumeration only
+        acc.count("histories")
+        if nontrivial(shape, sts):
+            acc.nt((shape, sts))
+    try:
+        store, b, hist, leaves = build(fmt, item)
+    except CommitFailed as e:
+        import traceback
+        tb = [f for f in traceback.extract_tb(e.exc.__traceback__) if "/breezy/" in f.filename]
+        acc.n += 1
+        acc.violation("commit:%s:%s:%s" % (fmt, type(e.exc).__name__, tb[-1].name if tb else "?"),
+                      {"format": fmt, "error": str(e.exc)[:300], "history": ancestry_of(e.hist, len(e.hist) - 1)})
+        return None
     try:
         repo = Repository.open(b.repository.user_url)
         rich = repo.supports_rich_root()
@@ -283,10 +322,6 @@ def check_item(fmt, item, acc, want_dump=False):
         acc.count("revisions:" + fmt, len(hist))
         acc.count("entries_compared", sum(len(v) for v in got[0].values()))
         acc.count("text_versions_compared", len(got[1]))
-        for tip, shape, sts in leaves:
-            acc.count("histories")
-            if nontrivial(shape, sts):
-                acc.nt((shape, sts))
         if models["file"] != models["rev"]:
             acc.count("repos_where_readings_differ:" + fmt)
             for rd in models:
